@@ -3,7 +3,7 @@
 # scratch worktree and runs the property's quick check against it (apply to /repo, check, revert)
 set -u
 p="$1"; n=1; while [ -e /verif/seeded/$p-$n ]; do n=$((n+1)); done; d=/verif/seeded/$p-$n; echo "storing as $p-$n"
-mkdir -p $d && cp /tmp/wt-$p/SEED/* $d/ || exit 2
+mkdir -p $d; cp /tmp/wt-$p/SEED/* $d/ 2>/dev/null || cp /tmp/seedout-$p/* $d/ || exit 2
 /verif/tools/confirm_seed.sh /tmp/wt-$p $d
 echo "--- check"
 /verif/tools/try_seed.sh $p $d/patch.diff | head -6
